@@ -169,6 +169,7 @@ fn chain_case(args: &Args, rng: &mut Rng, out: &mut Streams, dist: &mut Dist, sc
   g.malformed = rng.chance(1, 3) || args.get("malformed") == Some("1");
   let blocks = args.get("blocks").map(|v| v.parse().unwrap()).unwrap_or(14u64);
   let nblocks = 2 + rng.below(blocks);
+  let batchp = args.get("batchp").map(|v| v.parse().unwrap()).unwrap_or(250u64);
   // regtest jubilee is at 110: a third of the regtest chains start with ~105 empty blocks
   let premine = if chain == "regtest" && rng.chance(1, 3) { 100 + rng.below(9) } else if rng.chance(1, 2) { 6 + rng.below(3) } else { 0 };
   out.emit(&cfg_line(flags, chain), "ok");
@@ -183,6 +184,12 @@ fn chain_case(args: &Args, rng: &mut Rng, out: &mut Streams, dist: &mut Dist, sc
     node.push_block(block);
     if b < premine && b + 1 != premine {
       continue; // index the empty prefix in one go
+    }
+    // now and then let two or three blocks accumulate before the next update call, so that a
+    // block is also indexed inside a multi-block batch (its predecessor uncommitted)
+    if b >= premine && b + 1 < premine + nblocks && rng.below(1000) < batchp {
+      dist.hit("block_left_for_next_update");
+      continue;
     }
     match env::update(&ix, Duration::from_secs(120)) {
       UpdateOutcome::Ok => {}
@@ -224,9 +231,7 @@ fn chain_case(args: &Args, rng: &mut Rng, out: &mut Streams, dist: &mut Dist, sc
       g.runic = ix.index.get_rune_balances().unwrap().into_iter().collect();
     }
     let evs = drain_events(&mut ix);
-    if b >= premine {
-      out.emit("events", &evs);
-    }
+    out.emit("events", &evs);
     dump_sections(out, &ix, flags);
     // property-specific queries and oracle lines (one module per property group)
     {
